@@ -166,6 +166,43 @@ theorem adjust_identity (u : Bytes) (a : Addr) (h : ¬ (a.v6 = true ∧ a.scope 
     adjustUrl u a = some u := by
   unfold adjustUrl urlOutcome; simp [h]
 
+/-- … and unless the URL's host is an IPv6 link-local literal: whenever the URL is rewritten, the
+    source is a scoped IPv6 address AND the host `urlsplit` finds is an address in fe80::/10
+    (an IPv4 link-local host, 169.254/16, is left alone since the library repair `c72af10`) -/
+theorem adjusted_only_v6_link_local (u u' : Bytes) (a : Addr) (h : urlOutcome u a = .adjusted u') :
+    (a.v6 = true ∧ a.scope ≠ 0) ∧ ∃ p, urlParts u = .ok p ∧ ipKind p.host = .v6LinkLocal := by
+  unfold urlOutcome at h
+  by_cases hs : a.v6 = true ∧ a.scope ≠ 0
+  · refine ⟨hs, ?_⟩
+    have hc : ¬ ((!decide (a.v6 = true ∧ a.scope ≠ 0)) = true) := by simp [hs]
+    rw [if_neg hc] at h
+    cases hp : urlParts u with
+    | error e => rw [hp] at h; cases e <;> simp [Early.outcome] at h
+    | ok p =>
+      rw [hp] at h
+      refine ⟨p, rfl, ?_⟩
+      unfold adjustParts at h
+      dsimp only at h
+      split at h
+      · cases h
+      · split at h
+        · cases h
+        · split at h
+          · cases h
+          · split at h <;> first | cases h | assumption
+  · simp [hs] at h
+
+/-- hence: an unchanged or unmodelled answer in every other case -/
+theorem adjust_same_unless_v6 (u : Bytes) (a : Addr) (p : UrlParts) (hp : urlParts u = .ok p)
+    (hk : ipKind p.host ≠ .v6LinkLocal) : adjustUrl u a = some u ∨ adjustUrl u a = none := by
+  unfold adjustUrl
+  cases ho : urlOutcome u a with
+  | same w => exact Or.inl rfl
+  | unmodelled => exact Or.inr rfl
+  | adjusted u' =>
+    obtain ⟨_, p', hp', hk'⟩ := adjusted_only_v6_link_local u u' a ho
+    rw [hp] at hp'; cases hp'; exact absurd hk' hk
+
 /-! ### the run-time judge is the theorem's reading -/
 
 /-- **The judge evaluated on the model's own observation accepts**: for a well-formed header list,
